@@ -1,11 +1,15 @@
 (* Props/C16 (PHC codec part) — the executable PHC string codec of Model/Kdf.v (phc_print_x / phc_parse_x: the
-   `$alg[$v=N]$k=v,..$salt[$hash]` format of the `password-hash` crate with decimal parameters and unpadded
-   base64), the codec the kdf correspondence runs compare with the library byte for byte, round-trips every
-   record a writer prints — every algorithm choice, every parameter value, every salt, no side condition — and
-   the reader dispatches on both algorithm names the writer records.  So the two codec premises of the C16
-   theorems (Props/C16.v) and of C08_phsf_has_no_hash are discharged for it; the theorems are restated with
-   this codec (KDF, its parameter rules and the decrypting pipeline still universally quantified) and with the
-   whole executable plumbing (`_x`), leaving no codec premise.
+   `$alg[$v=N]$k=v,..$salt[$hash]` format with the rules of password-hash 0.5 — identifier, value, salt and hash
+   alphabets and length limits, canonical decimals, unpadded canonical base64), the codec the kdf correspondence runs
+   compare with the library byte for byte (also on hostile strings no writer produces), round-trips every record a
+   writer prints, for every algorithm choice, under the side condition rt_side: what the FORMAT demands of the variable
+   parts (every parameter value at most 64 digits, the parameter string at most 127 bytes, a salt of 3..48 bytes).
+   The condition is needed (C16_phc_roundtrip_x_refuted) and it is implied by what the writer checks itself: u32
+   parameters (kdf_valid_x refuses anything else) and a 16-byte salt.  The reader dispatches on both algorithm names
+   the writer records.  So the two codec premises of the C16 theorems (Props/C16.v) and of C08_phsf_has_no_hash are
+   discharged for this codec; the theorems are restated with it (`_codec`: KDF and decrypting pipeline still
+   universally quantified, the parameter rules any that refuse non-u32 values) and with the whole executable plumbing
+   (`_x`), leaving no codec premise.
    (That the crate computes the same strings as phc_print_x / phc_parse_x is established by the correspondence
    runs, not by proof.)
    Only statements, closed by `exact`, pinned by `Check`, audited by `Print Assumptions`. *)
@@ -28,23 +32,79 @@ Check C16_undec_dec :
   forall n : N, undec (dec n) = Some n.
 Print Assumptions C16_undec_dec.
 
-(* one `key=value` parameter: any key without `=` *)
+(* one `name=value` pair: any identifier, any value of the format *)
 Theorem C16_parse_show_param :
-  forall kv : bytes * N, ~ In eqsign (fst kv) -> parse_param (show_param kv) = Some kv.
+  forall kv : bytes * bytes, ident_ok (fst kv) = true /\ value_ok (snd kv) = true -> parse_param (show_param kv) = Some kv.
 Proof. exact parse_show_param. Qed.
 Check C16_parse_show_param :
-  forall kv : bytes * N, ~ In eqsign (fst kv) -> parse_param (show_param kv) = Some kv.
+  forall kv : bytes * bytes, ident_ok (fst kv) = true /\ value_ok (snd kv) = true -> parse_param (show_param kv) = Some kv.
 Print Assumptions C16_parse_show_param.
 
-(* the codec premise of Props/C16.v and C08_phsf_has_no_hash, for the executable codec: NO side condition *)
+(* Value::decimal on what ParamsString::add_decimal prints: canonical, the only condition is the u32 range *)
+Theorem C16_canon_dec_dec :
+  forall n : N, canon_dec (dec n) = (if N.ltb n U32 then Some n else None).
+Proof. exact canon_dec_dec. Qed.
+Check C16_canon_dec_dec :
+  forall n : N, canon_dec (dec n) = (if N.ltb n U32 then Some n else None).
+Print Assumptions C16_canon_dec_dec.
+
+(* the codec premise of Props/C16.v and C08_phsf_has_no_hash, for the executable codec: every algorithm choice; the side
+   condition is what the format demands of parameter values and salt *)
 Theorem C16_phc_roundtrip_x :
   forall (h : hash_alg) (salt : bytes),
+  rt_side h salt = true ->
   phc_parse_x (phc_print_x (writer_record h salt None)) = Some (writer_record h salt None).
 Proof. exact phc_roundtrip_x. Qed.
 Check C16_phc_roundtrip_x :
   forall (h : hash_alg) (salt : bytes),
+  rt_side h salt = true ->
   phc_parse_x (phc_print_x (writer_record h salt None)) = Some (writer_record h salt None).
 Print Assumptions C16_phc_roundtrip_x.
+
+(* ... it is needed: a value of 65 digits, a salt of 2 or of 49 bytes do not come back (model only: the Rust writer has
+   u32 parameters and a 16-byte salt) *)
+Theorem C16_phc_roundtrip_x_refuted :
+  phc_parse_x (phc_print_x (writer_record (Pbkdf2Sha256 (Some (10 ^ 64))) ex_salt None)) = None /\
+  phc_parse_x (phc_print_x (writer_record (Pbkdf2Sha256 None) [x01; x02] None)) = None /\
+  phc_parse_x (phc_print_x (writer_record (Pbkdf2Sha256 None) (repeat x01 49) None)) = None.
+Proof. exact phc_roundtrip_x_refuted. Qed.
+Check C16_phc_roundtrip_x_refuted :
+  phc_parse_x (phc_print_x (writer_record (Pbkdf2Sha256 (Some (10 ^ 64))) ex_salt None)) = None /\
+  phc_parse_x (phc_print_x (writer_record (Pbkdf2Sha256 None) [x01; x02] None)) = None /\
+  phc_parse_x (phc_print_x (writer_record (Pbkdf2Sha256 None) (repeat x01 49) None)) = None.
+Print Assumptions C16_phc_roundtrip_x_refuted.
+
+(* ... and it is implied by what the writer checks: u32 parameters and a salt of SALT_LEN bytes *)
+Theorem C16_fits_u32_side :
+  forall (h : hash_alg) (salt : bytes), fits_u32 h = true -> length salt = SALT_LEN -> rt_side h salt = true.
+Proof. exact fits_u32_side. Qed.
+Check C16_fits_u32_side :
+  forall (h : hash_alg) (salt : bytes), fits_u32 h = true -> length salt = SALT_LEN -> rt_side h salt = true.
+Print Assumptions C16_fits_u32_side.
+
+(* the parameter rules of the crates refuse parameters that are not u32 *)
+Theorem C16_kdf_valid_x_fits :
+  forall (h : hash_alg) (salt : bytes) (hash : option bytes),
+  kdf_valid_x (alg_name h) (alg_version h) (alg_params h) salt hash = true -> fits_u32 h = true.
+Proof. exact kdf_valid_x_fits. Qed.
+Check C16_kdf_valid_x_fits :
+  forall (h : hash_alg) (salt : bytes) (hash : option bytes),
+  kdf_valid_x (alg_name h) (alg_version h) (alg_params h) salt hash = true -> fits_u32 h = true.
+Print Assumptions C16_kdf_valid_x_fits.
+
+(* hence the premise exactly as Props/C16.v states it *)
+Theorem C16_phc_roundtrip_x_writer :
+  forall (h : hash_alg) (salt : bytes),
+  length salt = SALT_LEN ->
+  kdf_valid_x (alg_name h) (alg_version h) (alg_params h) salt None = true ->
+  phc_parse_x (phc_print_x (writer_record h salt None)) = Some (writer_record h salt None).
+Proof. exact phc_roundtrip_x_writer. Qed.
+Check C16_phc_roundtrip_x_writer :
+  forall (h : hash_alg) (salt : bytes),
+  length salt = SALT_LEN ->
+  kdf_valid_x (alg_name h) (alg_version h) (alg_params h) salt None = true ->
+  phc_parse_x (phc_print_x (writer_record h salt None)) = Some (writer_record h salt None).
+Print Assumptions C16_phc_roundtrip_x_writer.
 
 (* the dispatch premise *)
 Theorem C16_alg_supported_x :
@@ -57,37 +117,43 @@ Print Assumptions C16_alg_supported_x.
 (* another salt, algorithm or parameter value gives another PHSF *)
 Theorem C16_phc_print_x_inj :
   forall (h h' : hash_alg) (salt salt' : bytes),
+  rt_side h salt = true -> rt_side h' salt' = true ->
   phc_print_x (writer_record h salt None) = phc_print_x (writer_record h' salt' None) ->
   writer_record h salt None = writer_record h' salt' None.
 Proof. exact phc_print_x_inj. Qed.
 Check C16_phc_print_x_inj :
   forall (h h' : hash_alg) (salt salt' : bytes),
+  rt_side h salt = true -> rt_side h' salt' = true ->
   phc_print_x (writer_record h salt None) = phc_print_x (writer_record h' salt' None) ->
   writer_record h salt None = writer_record h' salt' None.
 Print Assumptions C16_phc_print_x_inj.
 
-(* C16_right_password_reads with the codec premises discharged: what remains quantified is the KDF and its parameter rules *)
+(* C16_right_password_reads with the codec premises discharged: what remains quantified is the KDF and its parameter rules
+   (any rules that refuse parameters outside u32, the Rust type of the parameters) *)
 Theorem C16_right_password_reads_codec :
-  forall (key : Type) (kdf : bytes -> option N -> list (bytes * N) -> bytes -> bytes -> key)
-    (kdf_valid : bytes -> option N -> list (bytes * N) -> bytes -> bool)
-    (m : cipher_mode) (h : hash_alg) (pw tape : bytes) (c : ctx key) (t' : bytes),
+  forall (key : Type) (kdf : bytes -> option N -> list (bytes * bytes) -> bytes -> bytes -> key)
+    (kdf_valid : bytes -> option N -> list (bytes * bytes) -> bytes -> option bytes -> bool),
+  (forall (h : hash_alg) (salt : bytes), kdf_valid (alg_name h) (alg_version h) (alg_params h) salt None = true -> fits_u32 h = true) ->
+  forall (m : cipher_mode) (h : hash_alg) (pw tape : bytes) (c : ctx key) (t' : bytes),
   writer_context key kdf kdf_valid phc_print_x m h pw tape = Ok (c, t') ->
   reader_key key kdf kdf_valid alg_supported_x phc_parse_x (ctx_phsf c) pw = Ok (ctx_key c).
 Proof. exact right_password_reads_codec. Qed.
 Check C16_right_password_reads_codec :
-  forall (key : Type) (kdf : bytes -> option N -> list (bytes * N) -> bytes -> bytes -> key)
-    (kdf_valid : bytes -> option N -> list (bytes * N) -> bytes -> bool)
-    (m : cipher_mode) (h : hash_alg) (pw tape : bytes) (c : ctx key) (t' : bytes),
+  forall (key : Type) (kdf : bytes -> option N -> list (bytes * bytes) -> bytes -> bytes -> key)
+    (kdf_valid : bytes -> option N -> list (bytes * bytes) -> bytes -> option bytes -> bool),
+  (forall (h : hash_alg) (salt : bytes), kdf_valid (alg_name h) (alg_version h) (alg_params h) salt None = true -> fits_u32 h = true) ->
+  forall (m : cipher_mode) (h : hash_alg) (pw tape : bytes) (c : ctx key) (t' : bytes),
   writer_context key kdf kdf_valid phc_print_x m h pw tape = Ok (c, t') ->
   reader_key key kdf kdf_valid alg_supported_x phc_parse_x (ctx_phsf c) pw = Ok (ctx_key c).
 Print Assumptions C16_right_password_reads_codec.
 
 (* C16_right_password_decodes with the codec premises discharged *)
 Theorem C16_right_password_decodes_codec :
-  forall (key : Type) (kdf : bytes -> option N -> list (bytes * N) -> bytes -> bytes -> key)
-    (kdf_valid : bytes -> option N -> list (bytes * N) -> bytes -> bool)
-    (decrypt : key -> bytes -> bytes -> res bytes)
-    (enc : encryption) (m : cipher_mode) (h : hash_alg) (pw tape : bytes) (c : ctx key)
+  forall (key : Type) (kdf : bytes -> option N -> list (bytes * bytes) -> bytes -> bytes -> key)
+    (kdf_valid : bytes -> option N -> list (bytes * bytes) -> bytes -> option bytes -> bool)
+    (decrypt : key -> bytes -> bytes -> res bytes),
+  (forall (h : hash_alg) (salt : bytes), kdf_valid (alg_name h) (alg_version h) (alg_params h) salt None = true -> fits_u32 h = true) ->
+  forall (enc : encryption) (m : cipher_mode) (h : hash_alg) (pw tape : bytes) (c : ctx key)
     (t' : bytes) (ct : list byte) (content : bytes),
   encrypted_b enc = true ->
   writer_context key kdf kdf_valid phc_print_x m h pw tape = Ok (c, t') ->
@@ -96,10 +162,11 @@ Theorem C16_right_password_decodes_codec :
   decode key kdf kdf_valid alg_supported_x phc_parse_x decrypt enc m (Some (ctx_phsf c)) (Some pw) (ctx_iv c ++ ct) = Ok content.
 Proof. exact right_password_decodes_codec. Qed.
 Check C16_right_password_decodes_codec :
-  forall (key : Type) (kdf : bytes -> option N -> list (bytes * N) -> bytes -> bytes -> key)
-    (kdf_valid : bytes -> option N -> list (bytes * N) -> bytes -> bool)
-    (decrypt : key -> bytes -> bytes -> res bytes)
-    (enc : encryption) (m : cipher_mode) (h : hash_alg) (pw tape : bytes) (c : ctx key)
+  forall (key : Type) (kdf : bytes -> option N -> list (bytes * bytes) -> bytes -> bytes -> key)
+    (kdf_valid : bytes -> option N -> list (bytes * bytes) -> bytes -> option bytes -> bool)
+    (decrypt : key -> bytes -> bytes -> res bytes),
+  (forall (h : hash_alg) (salt : bytes), kdf_valid (alg_name h) (alg_version h) (alg_params h) salt None = true -> fits_u32 h = true) ->
+  forall (enc : encryption) (m : cipher_mode) (h : hash_alg) (pw tape : bytes) (c : ctx key)
     (t' : bytes) (ct : list byte) (content : bytes),
   encrypted_b enc = true ->
   writer_context key kdf kdf_valid phc_print_x m h pw tape = Ok (c, t') ->
@@ -110,10 +177,11 @@ Print Assumptions C16_right_password_decodes_codec.
 
 (* C16_wrong_password_partial with the codec premises discharged: its two named premises remain *)
 Theorem C16_wrong_password_partial_codec :
-  forall (key : Type) (kdf : bytes -> option N -> list (bytes * N) -> bytes -> bytes -> key)
-    (kdf_valid : bytes -> option N -> list (bytes * N) -> bytes -> bool)
-    (decrypt : key -> bytes -> bytes -> res bytes)
-    (enc : encryption) (m : cipher_mode) (h : hash_alg) (pw pw' tape : bytes) (c : ctx key) (t' ct content : bytes),
+  forall (key : Type) (kdf : bytes -> option N -> list (bytes * bytes) -> bytes -> bytes -> key)
+    (kdf_valid : bytes -> option N -> list (bytes * bytes) -> bytes -> option bytes -> bool)
+    (decrypt : key -> bytes -> bytes -> res bytes),
+  (forall (h : hash_alg) (salt : bytes), kdf_valid (alg_name h) (alg_version h) (alg_params h) salt None = true -> fits_u32 h = true) ->
+  forall (enc : encryption) (m : cipher_mode) (h : hash_alg) (pw pw' tape : bytes) (c : ctx key) (t' ct content : bytes),
   writer_context key kdf kdf_valid phc_print_x m h pw tape = Ok (c, t') ->
   (let salt := firstn SALT_LEN tape in
    kdf (alg_name h) (alg_version h) (alg_params h) salt pw' <> kdf (alg_name h) (alg_version h) (alg_params h) salt pw) ->
@@ -122,10 +190,11 @@ Theorem C16_wrong_password_partial_codec :
   decode key kdf kdf_valid alg_supported_x phc_parse_x decrypt enc m (Some (ctx_phsf c)) (Some pw') (ctx_iv c ++ ct) <> Ok content.
 Proof. exact wrong_password_partial_codec. Qed.
 Check C16_wrong_password_partial_codec :
-  forall (key : Type) (kdf : bytes -> option N -> list (bytes * N) -> bytes -> bytes -> key)
-    (kdf_valid : bytes -> option N -> list (bytes * N) -> bytes -> bool)
-    (decrypt : key -> bytes -> bytes -> res bytes)
-    (enc : encryption) (m : cipher_mode) (h : hash_alg) (pw pw' tape : bytes) (c : ctx key) (t' ct content : bytes),
+  forall (key : Type) (kdf : bytes -> option N -> list (bytes * bytes) -> bytes -> bytes -> key)
+    (kdf_valid : bytes -> option N -> list (bytes * bytes) -> bytes -> option bytes -> bool)
+    (decrypt : key -> bytes -> bytes -> res bytes),
+  (forall (h : hash_alg) (salt : bytes), kdf_valid (alg_name h) (alg_version h) (alg_params h) salt None = true -> fits_u32 h = true) ->
+  forall (enc : encryption) (m : cipher_mode) (h : hash_alg) (pw pw' tape : bytes) (c : ctx key) (t' ct content : bytes),
   writer_context key kdf kdf_valid phc_print_x m h pw tape = Ok (c, t') ->
   (let salt := firstn SALT_LEN tape in
    kdf (alg_name h) (alg_version h) (alg_params h) salt pw' <> kdf (alg_name h) (alg_version h) (alg_params h) salt pw) ->
@@ -137,31 +206,35 @@ Print Assumptions C16_wrong_password_partial_codec.
 (* the PHSF of a context parses to exactly the writer's record: its algorithm, version and parameters, the salt drawn
    from the tape, and no hash (C08_phsf_has_no_hash with the codec premise discharged, and stronger) *)
 Theorem C16_phsf_parses_to_record_codec :
-  forall (key : Type) (kdf : bytes -> option N -> list (bytes * N) -> bytes -> bytes -> key)
-    (kdf_valid : bytes -> option N -> list (bytes * N) -> bytes -> bool)
-    (m : cipher_mode) (h : hash_alg) (pw tape : bytes) (c : ctx key) (t' : bytes),
+  forall (key : Type) (kdf : bytes -> option N -> list (bytes * bytes) -> bytes -> bytes -> key)
+    (kdf_valid : bytes -> option N -> list (bytes * bytes) -> bytes -> option bytes -> bool),
+  (forall (h : hash_alg) (salt : bytes), kdf_valid (alg_name h) (alg_version h) (alg_params h) salt None = true -> fits_u32 h = true) ->
+  forall (m : cipher_mode) (h : hash_alg) (pw tape : bytes) (c : ctx key) (t' : bytes),
   writer_context key kdf kdf_valid phc_print_x m h pw tape = Ok (c, t') ->
   phc_parse_x (ctx_phsf c) = Some (writer_record h (firstn SALT_LEN tape) None).
 Proof. exact phsf_parses_to_record_codec. Qed.
 Check C16_phsf_parses_to_record_codec :
-  forall (key : Type) (kdf : bytes -> option N -> list (bytes * N) -> bytes -> bytes -> key)
-    (kdf_valid : bytes -> option N -> list (bytes * N) -> bytes -> bool)
-    (m : cipher_mode) (h : hash_alg) (pw tape : bytes) (c : ctx key) (t' : bytes),
+  forall (key : Type) (kdf : bytes -> option N -> list (bytes * bytes) -> bytes -> bytes -> key)
+    (kdf_valid : bytes -> option N -> list (bytes * bytes) -> bytes -> option bytes -> bool),
+  (forall (h : hash_alg) (salt : bytes), kdf_valid (alg_name h) (alg_version h) (alg_params h) salt None = true -> fits_u32 h = true) ->
+  forall (m : cipher_mode) (h : hash_alg) (pw tape : bytes) (c : ctx key) (t' : bytes),
   writer_context key kdf kdf_valid phc_print_x m h pw tape = Ok (c, t') ->
   phc_parse_x (ctx_phsf c) = Some (writer_record h (firstn SALT_LEN tape) None).
 Print Assumptions C16_phsf_parses_to_record_codec.
 
 Theorem C16_phsf_has_no_hash_codec :
-  forall (key : Type) (kdf : bytes -> option N -> list (bytes * N) -> bytes -> bytes -> key)
-    (kdf_valid : bytes -> option N -> list (bytes * N) -> bytes -> bool)
-    (m : cipher_mode) (h : hash_alg) (pw tape : bytes) (c : ctx key) (t' : bytes),
+  forall (key : Type) (kdf : bytes -> option N -> list (bytes * bytes) -> bytes -> bytes -> key)
+    (kdf_valid : bytes -> option N -> list (bytes * bytes) -> bytes -> option bytes -> bool),
+  (forall (h : hash_alg) (salt : bytes), kdf_valid (alg_name h) (alg_version h) (alg_params h) salt None = true -> fits_u32 h = true) ->
+  forall (m : cipher_mode) (h : hash_alg) (pw tape : bytes) (c : ctx key) (t' : bytes),
   writer_context key kdf kdf_valid phc_print_x m h pw tape = Ok (c, t') ->
   exists p : phc, phc_parse_x (ctx_phsf c) = Some p /\ ph_hash p = None.
 Proof. exact phsf_has_no_hash_codec. Qed.
 Check C16_phsf_has_no_hash_codec :
-  forall (key : Type) (kdf : bytes -> option N -> list (bytes * N) -> bytes -> bytes -> key)
-    (kdf_valid : bytes -> option N -> list (bytes * N) -> bytes -> bool)
-    (m : cipher_mode) (h : hash_alg) (pw tape : bytes) (c : ctx key) (t' : bytes),
+  forall (key : Type) (kdf : bytes -> option N -> list (bytes * bytes) -> bytes -> bytes -> key)
+    (kdf_valid : bytes -> option N -> list (bytes * bytes) -> bytes -> option bytes -> bool),
+  (forall (h : hash_alg) (salt : bytes), kdf_valid (alg_name h) (alg_version h) (alg_params h) salt None = true -> fits_u32 h = true) ->
+  forall (m : cipher_mode) (h : hash_alg) (pw tape : bytes) (c : ctx key) (t' : bytes),
   writer_context key kdf kdf_valid phc_print_x m h pw tape = Ok (c, t') ->
   exists p : phc, phc_parse_x (ctx_phsf c) = Some p /\ ph_hash p = None.
 Print Assumptions C16_phsf_has_no_hash_codec.
@@ -236,19 +309,70 @@ Check C16_write_all_reads_x :
             (exists p : phc, phc_parse_x (ctx_phsf c) = Some p /\ ph_hash p = None)) cs.
 Print Assumptions C16_write_all_reads_x.
 
+(* the reader (reader_key_x with password "pw") on strings no writer of this library produces: the rules of the crates,
+   as the correspondence runs observe them on the library *)
+Theorem C16_foreign_strings :
+  (* non-canonical decimals, upper case, an empty trailing field, an over-long or undecodable salt: errors of the format *)
+  outcome_is "$pbkdf2-sha256$i=01,l=32$MDEyMzQ1Njc4OWFiY2RlZg" InvalidData = true /\
+  outcome_is "$argon2id$v=019$m=8,t=1,p=1$MDEyMzQ1Njc4OWFiY2RlZg" InvalidData = true /\
+  outcome_is "$ARGON2ID$v=19$m=8,t=1,p=1$MDEyMzQ1Njc4OWFiY2RlZg" InvalidData = true /\
+  outcome_is "$argon2id$v=19$m=8,t=1,p=1$MDEyMzQ1Njc4OWFiY2RlZg$" InvalidData = true /\
+  outcome_is "$pbkdf2-sha256$i=1,l=32$MDE" InvalidData = true /\
+  outcome_is "$pbkdf2-sha256$i=1,l=32$MDEyMx" InvalidData = true /\
+  (* every p is range-checked *)
+  outcome_is "$argon2id$v=19$m=8,t=1,p=1,p=4294967295$MDEyMzQ1Njc4OWFiY2RlZg" InvalidData = true /\
+  (* an unsupported algorithm: the format comes first, then the dispatch; the salt is decoded only after it *)
+  outcome_is "$scrypt$ln=abc$MDEy.DEy" Unsupported = true /\
+  outcome_is "$scrypt$v=01$ln=1$MDEyMzQ1Njc4OWFiY2RlZg" InvalidData = true /\
+  (* of a repeated parameter the last one counts; the associated data of argon2 reaches the KDF, the key id does not *)
+  key_of "$pbkdf2-sha256$i=1,i=2,l=32$MDEyMzQ1Njc4OWFiY2RlZg" = key_of "$pbkdf2-sha256$i=2$MDEyMzQ1Njc4OWFiY2RlZg" /\
+  key_of "$argon2id$v=19$m=8,t=1,keyid=Zm9v,p=1$MDEyMzQ1Njc4OWFiY2RlZg" = key_of "$argon2id$v=19$m=8,t=1,p=1$MDEyMzQ1Njc4OWFiY2RlZg" /\
+  key_of "$argon2id$v=19$m=8,t=1,p=1,data=Zm9v$MDEyMzQ1Njc4OWFiY2RlZg" <> key_of "$argon2id$v=19$m=8,t=1,p=1$MDEyMzQ1Njc4OWFiY2RlZg" /\
+  key_of "$argon2id$v=19$m=8,t=1,p=1,data=Zm9v$MDEyMzQ1Njc4OWFiY2RlZg" <> None /\
+  (* a hash in the string fixes the output length: only 32 bytes make a key *)
+  key_of "$argon2id$v=19$m=8,t=1,p=1$MDEyMzQ1Njc4OWFiY2RlZg$AAECAwQFBgcICQoLDA0ODxAREhMUFRYXGBkaGxwdHh8" <> None /\
+  outcome_is "$argon2id$v=19$m=8,t=1,p=1$MDEyMzQ1Njc4OWFiY2RlZg$AAECAwQFBgcICQoLDA0ODw" InvalidData = true.
+Proof. exact ex_foreign_strings. Qed.
+Check C16_foreign_strings :
+  (* non-canonical decimals, upper case, an empty trailing field, an over-long or undecodable salt: errors of the format *)
+  outcome_is "$pbkdf2-sha256$i=01,l=32$MDEyMzQ1Njc4OWFiY2RlZg" InvalidData = true /\
+  outcome_is "$argon2id$v=019$m=8,t=1,p=1$MDEyMzQ1Njc4OWFiY2RlZg" InvalidData = true /\
+  outcome_is "$ARGON2ID$v=19$m=8,t=1,p=1$MDEyMzQ1Njc4OWFiY2RlZg" InvalidData = true /\
+  outcome_is "$argon2id$v=19$m=8,t=1,p=1$MDEyMzQ1Njc4OWFiY2RlZg$" InvalidData = true /\
+  outcome_is "$pbkdf2-sha256$i=1,l=32$MDE" InvalidData = true /\
+  outcome_is "$pbkdf2-sha256$i=1,l=32$MDEyMx" InvalidData = true /\
+  (* every p is range-checked *)
+  outcome_is "$argon2id$v=19$m=8,t=1,p=1,p=4294967295$MDEyMzQ1Njc4OWFiY2RlZg" InvalidData = true /\
+  (* an unsupported algorithm: the format comes first, then the dispatch; the salt is decoded only after it *)
+  outcome_is "$scrypt$ln=abc$MDEy.DEy" Unsupported = true /\
+  outcome_is "$scrypt$v=01$ln=1$MDEyMzQ1Njc4OWFiY2RlZg" InvalidData = true /\
+  (* of a repeated parameter the last one counts; the associated data of argon2 reaches the KDF, the key id does not *)
+  key_of "$pbkdf2-sha256$i=1,i=2,l=32$MDEyMzQ1Njc4OWFiY2RlZg" = key_of "$pbkdf2-sha256$i=2$MDEyMzQ1Njc4OWFiY2RlZg" /\
+  key_of "$argon2id$v=19$m=8,t=1,keyid=Zm9v,p=1$MDEyMzQ1Njc4OWFiY2RlZg" = key_of "$argon2id$v=19$m=8,t=1,p=1$MDEyMzQ1Njc4OWFiY2RlZg" /\
+  key_of "$argon2id$v=19$m=8,t=1,p=1,data=Zm9v$MDEyMzQ1Njc4OWFiY2RlZg" <> key_of "$argon2id$v=19$m=8,t=1,p=1$MDEyMzQ1Njc4OWFiY2RlZg" /\
+  key_of "$argon2id$v=19$m=8,t=1,p=1,data=Zm9v$MDEyMzQ1Njc4OWFiY2RlZg" <> None /\
+  (* a hash in the string fixes the output length: only 32 bytes make a key *)
+  key_of "$argon2id$v=19$m=8,t=1,p=1$MDEyMzQ1Njc4OWFiY2RlZg$AAECAwQFBgcICQoLDA0ODxAREhMUFRYXGBkaGxwdHh8" <> None /\
+  outcome_is "$argon2id$v=19$m=8,t=1,p=1$MDEyMzQ1Njc4OWFiY2RlZg$AAECAwQFBgcICQoLDA0ODw" InvalidData = true.
+Print Assumptions C16_foreign_strings.
+
 (* the premises are met: a concrete 16-byte salt (bytes 1..16), both algorithms, default and extreme parameter values;
    the printed strings are the ones the library writes *)
 Theorem C16_phc_examples :
   (phc_print_x (writer_record (Argon2Id None None None) ex_salt None) = lit "$argon2id$v=19$m=19456,t=2,p=1$AQIDBAUGBwgJCgsMDQ4PEA" /\
-   phc_parse_x (lit "$argon2id$v=19$m=19456,t=2,p=1$AQIDBAUGBwgJCgsMDQ4PEA") = Some (writer_record (Argon2Id None None None) ex_salt None)) /\
+   phc_parse_x (lit "$argon2id$v=19$m=19456,t=2,p=1$AQIDBAUGBwgJCgsMDQ4PEA") = Some (writer_record (Argon2Id None None None) ex_salt None) /\
+   rt_side (Argon2Id None None None) ex_salt = true) /\
   (phc_print_x (writer_record (Pbkdf2Sha256 (Some 4294967295)) ex_salt None) = lit "$pbkdf2-sha256$i=4294967295,l=32$AQIDBAUGBwgJCgsMDQ4PEA" /\
-   phc_parse_x (lit "$pbkdf2-sha256$i=4294967295,l=32$AQIDBAUGBwgJCgsMDQ4PEA") = Some (writer_record (Pbkdf2Sha256 (Some 4294967295)) ex_salt None)).
+   phc_parse_x (lit "$pbkdf2-sha256$i=4294967295,l=32$AQIDBAUGBwgJCgsMDQ4PEA") = Some (writer_record (Pbkdf2Sha256 (Some 4294967295)) ex_salt None) /\
+   rt_side (Pbkdf2Sha256 (Some 4294967295)) ex_salt = true).
 Proof. exact (conj ex_print_argon2 ex_print_pbkdf2). Qed.
 Check C16_phc_examples :
   (phc_print_x (writer_record (Argon2Id None None None) ex_salt None) = lit "$argon2id$v=19$m=19456,t=2,p=1$AQIDBAUGBwgJCgsMDQ4PEA" /\
-   phc_parse_x (lit "$argon2id$v=19$m=19456,t=2,p=1$AQIDBAUGBwgJCgsMDQ4PEA") = Some (writer_record (Argon2Id None None None) ex_salt None)) /\
+   phc_parse_x (lit "$argon2id$v=19$m=19456,t=2,p=1$AQIDBAUGBwgJCgsMDQ4PEA") = Some (writer_record (Argon2Id None None None) ex_salt None) /\
+   rt_side (Argon2Id None None None) ex_salt = true) /\
   (phc_print_x (writer_record (Pbkdf2Sha256 (Some 4294967295)) ex_salt None) = lit "$pbkdf2-sha256$i=4294967295,l=32$AQIDBAUGBwgJCgsMDQ4PEA" /\
-   phc_parse_x (lit "$pbkdf2-sha256$i=4294967295,l=32$AQIDBAUGBwgJCgsMDQ4PEA") = Some (writer_record (Pbkdf2Sha256 (Some 4294967295)) ex_salt None)).
+   phc_parse_x (lit "$pbkdf2-sha256$i=4294967295,l=32$AQIDBAUGBwgJCgsMDQ4PEA") = Some (writer_record (Pbkdf2Sha256 (Some 4294967295)) ex_salt None) /\
+   rt_side (Pbkdf2Sha256 (Some 4294967295)) ex_salt = true).
 Print Assumptions C16_phc_examples.
 
 (* ... and the hypothesis of the `_x` theorems is satisfiable: writer_context_x succeeds for both algorithms on a 40-byte tape *)
